@@ -574,6 +574,12 @@ func (mq *MessageQueue) sendMessage() {
 		// Convert want lists to a Bitswap Message
 		message, onSent := mq.extractOutgoingMessage(supportsHave)
 		if message.Empty() {
+			// Every entry may have been removed from the message at the last
+			// minute while wants that did not fit into it are still pending:
+			// make sure they get sent.
+			if mq.pendingWorkCount() > 0 {
+				mq.signalWorkReady()
+			}
 			return
 		}
 
